@@ -234,7 +234,7 @@ fn messages() -> Vec<&'static str> {
 }
 
 pub fn run() -> i32 {
-    let mut rep = Report::new("emission", "synthetic diagnostic lists over 2 real files (kind error / lint / suppressed lint x span none / some x 0..2 notes x note span none / some x 7 message texts incl. quotes, backslashes, control characters, astral characters; lists of length <= 3) + the real diagnostics of 9 ill-formed programs under 3 suppression settings; x format JSON / human x colours disabled / enabled (forced on first)");
+    let mut rep = Report::new("emission", "synthetic diagnostic lists over 2 real files (kind error / lint / suppressed lint x span none / some x 0..2 notes x note span none / some x 7 message texts incl. quotes, backslashes, control characters, astral characters; lists of length <= 3) + the real diagnostics of 10 ill-formed programs under 3 suppression settings (recorded order kept by the level rewriting); x format JSON / human x colours disabled / enabled (forced on first)");
     let files_text = ["module M\nstruct S { a: bool }\n\tstruct T { s: S }\n", "module N\ninterface I {\n    op(p: string) -> int32\n}\n"];
     let base = slicec::compile_from_strings(&files_text, Some(&SliceOptions::default()));
     let files = base.files;
@@ -302,7 +302,7 @@ pub fn run() -> i32 {
         jobs.push((format!("synthetic {:?}", l.iter().map(|(s, t)| format!("{t}:kind{} msg{} span{:?} notes{:?}", s.kind, s.msg, s.span, s.notes)).collect::<Vec<_>>()), ds, o, gone));
     }
     // ---- real diagnostics ----------------------------------------------------------------------------------------
-    let corpus: [&[&str]; 9] = [
+    let corpus: [&[&str]; 10] = [
         &["module M\nstruct S { a: bool, a: bool }\n"],
         &["module M\nstruct S { s: S }\nstruct T { u: U }\nstruct U { t: T }\n"],
         &["module M\n[deprecated(\"old\")] struct A {}\nstruct B { a: A, b: A }\n"],
@@ -312,6 +312,8 @@ pub fn run() -> i32 {
         &["module M\n#if X\nstruct S {\n"],
         &["module M\ninterface I : I {}\ntypealias A = Sequence<A>\n"],
         &["module M\n[allow(Deprecated)] struct Q { a: A }\n[deprecated] struct A {}\n/// @returns: nothing\ninterface I { op() }\n"],
+        // errors recorded BEFORE, BETWEEN and AFTER lints (parser lints, then validation errors, then validator lints)
+        &["module M\nstruct S { a: bool, a: bool }\n[deprecated] struct Old {}\ninterface I {\n    /// @param q: nothing\n    op(o: Old)\n}\nstruct T { tag(1) x: bool }\n"],
     ];
     for (ci, texts) in corpus.iter().enumerate() {
         for allow in [vec![], vec!["All".to_owned()], vec!["Deprecated".to_owned()]] {
@@ -330,7 +332,21 @@ pub fn run() -> i32 {
         } else { (ds, None, None) };
         let fl = job_files.as_deref().unwrap_or(&files);
         let a = job_ast.as_ref().unwrap_or(&ast);
+        // the order in which the diagnostics were RECORDED (a second, identical list, read without the level rewriting)
+        let recorded: Vec<(String, String)> = if ji >= nsynthetic {
+            let ci: usize = gone[0].trim_start_matches("CORPUS").parse().unwrap();
+            slicec::compile_from_strings(corpus[ci], Some(&SliceOptions::default())).diagnostics.into_inner().iter().map(|d| (d.code().to_owned(), d.message())).collect()
+        } else {
+            let mut again = Diagnostics::new();
+            for (sh, tag) in &lists[ji] { build(sh, tag).push_into(&mut again); }
+            again.into_inner().iter().map(|d| (d.code().to_owned(), d.message())).collect()
+        };
         let updated = ds.into_updated(a, fl, &options);
+        let after: Vec<(String, String)> = updated.iter().map(|d| (d.code().to_owned(), d.message())).collect();
+        if after != recorded {
+            rep.counterexample(&label, &format!("the level rewriting keeps every diagnostic, in the order recorded: {:?}", recorded.iter().map(|d| d.0.as_str()).collect::<Vec<_>>()), &format!("{:?}", after.iter().map(|d| d.0.as_str()).collect::<Vec<_>>()));
+            continue;
+        }
         let totals = slicec::diagnostics::get_totals(&updated);
         let exp: Vec<Exp> = updated.iter().filter(|d| d.level() != DiagnosticLevel::Allowed).map(|d| Exp {
             level: d.level(), code: d.code().to_owned(), message: d.message(), span: d.span().cloned(),
